@@ -289,8 +289,8 @@ DIMS = {
     'share': [True, False],
     'menu': ['full', 'empty', 'inonly', 'outonly'],
     'evorder': ['grouped', 'interleaved', 'outsfirst', 'reversed'],
-    'names': ['plain', 'caps', 'under', 'evlike'],
-    'evnames': ['plain', 'acqfree', 'swapped'],
+    'names': ['plain', 'caps', 'under', 'evlike', 'pykw'],
+    'evnames': ['plain', 'acqfree', 'swapped', 'pykw'],
     'psem': ['MTS', 'STS'],
     'rsem': ['allmts', 'allsts', 'firstmts', 'firststs', 'lastmts', 'laststs'],
     'fac': ['create', 'import'],
@@ -305,9 +305,12 @@ PORT_NAMES = {'plain': (['p', 'p2', 'p3'], ['r', 'r2', 'r3'], ['inj']),
               'caps': (['Api', 'Api2', 'Api3'], ['Hal', 'Hal2', 'Hal3'], ['Inj']),
               'under': (['_p1', '_p2', '_p3'], ['r_1', 'r_2', 'r_3'], ['i_n_j']),
               # ports named like events of their own interfaces
-              'evlike': (['V0', 'O2', 'Evt'], ['O0', 'Same', 'Claim'], ['BoolRet'])}
+              'evlike': (['V0', 'O2', 'Evt'], ['O0', 'Same', 'Claim'], ['BoolRet']),
+              # identifiers that are legal in Dezyne and C++ but keywords / builtins of Python
+              'pykw': (['is', 'None', 'from'], ['as', 'self', 'raise'], ['lambda'])}
 
-CLAIM_NAMES = {'plain': ('Claim', 'Release'), 'acqfree': ('Acquire', 'Free'), 'swapped': ('Release', 'Claim')}
+CLAIM_NAMES = {'plain': ('Claim', 'Release'), 'acqfree': ('Acquire', 'Free'), 'swapped': ('Release', 'Claim'),
+               'pykw': ('yield', 'pass')}
 
 
 def full_menu():
